@@ -78,7 +78,8 @@ class VClock:
         self._loop = loop
 
     def time(self):
-        return self._loop.time()
+        # wall_offset: the wall clock may be stepped (NTP, VM resume) independently of the loop's monotonic time
+        return self._loop.time() + getattr(self._loop, "wall_offset", 0.0)
 
     def __getattr__(self, name):
         import time as _t
